@@ -38,6 +38,12 @@ NOTES = {
  'C17-m6': ('C17', 'a controller and a bare Pod sharing namespace/name in a policy-free world'),
  'C18-m4': ('C18', 'inputs with sub-directories'), 'C18-m5': ('C18, C16', 'default/NAME focus values'), 'C18-m6': ('C18', 'a directory diffed with itself, incl. a missing one'),
  'C19-m4': ('C19', 'the same BANP manifest twice'), 'C19-m6': ('C19', 'an ANP duplicated with the same name and priority'),
+ # round 3
+ 'C01-m7': ('C01', 'a workload without any label facing a rule whose selector only excludes'), 'C01-m8': ('C01', 'host ports on named container ports'),
+ 'C06-m7': ('C06', 'two whole-cluster policies, one selecting every workload of the namespace and one a single workload; motif selection made uniform'),
+ 'C06-m9': ('C06, C09', 'the printed exposure section read back against ExposedPeers() in C06 too; the nsexpr motif forced in part of the C09 exposure worlds'),
+ 'C10-m9': ('C10', 'Services / Ingresses / Routes of the default namespace written without namespace'),
+ 'C18-m7': ('C18', 'format names in another letter case'), 'C18-m8': ('C18', 'a directory given through a symbolic link with a trailing slash'),
 }
 base = '/verif/seeded'
 for sid in sorted(os.listdir(base)):
